@@ -430,7 +430,7 @@ func crashSummary(s string) string {
 func init() {
 	vlib.Register(&vlib.Check{
 		ID: "C24", Engine: "E2",
-		Rule: "flag tables = all 32 well-formed subsets of {--s:str,--i:int,--n:num,--b:bool,-a->--s,-x->-a} (alias targets declared) x AllowAdditional in {false,true}; argument lists = every sequence of up to L tokens over {--s,--i,--n,--b,-a,-x,--zz,v,5,x5,-5,--} (API: L=4 quick / 5 thorough; through the `args` builtin: L=3 quick / 4 thorough). Each case calls parameters.ParseFlags and compares flags (name, Go type, value), additional and error/no-error with a reference parser written from the statement; lists that the statement does not define (value flag followed by a flag-like token or `--`, the same flag given twice with different values, a trailing `--` when additional is disallowed) are only required not to panic and are counted separately. The `args` builtin is run in a function scope holding the list as its parameters and must return, set the variable to the same flags/additional, or set Error to the ParseFlags error text with exit number 1. Non-trivial = lists in which at least one flag declared in the table, or `--`, takes part (lists of bare values / undeclared flags only are trivial)",
+		Rule:   "flag tables = all 32 well-formed subsets of {--s:str,--i:int,--n:num,--b:bool,-a->--s,-x->-a} (alias targets declared) x AllowAdditional in {false,true}; argument lists = every sequence of up to L tokens over {--s,--i,--n,--b,-a,-x,--zz,v,5,x5,-5,--} (API: L=4 quick / 5 thorough; through the `args` builtin: L=3 quick / 4 thorough). Each case calls parameters.ParseFlags and compares flags (name, Go type, value), additional and error/no-error with a reference parser written from the statement; lists that the statement does not define (value flag followed by a flag-like token or `--`, the same flag given twice with different values, a trailing `--` when additional is disallowed) are only required not to panic and are counted separately. The `args` builtin is run in a function scope holding the list as its parameters and must return, set the variable to the same flags/additional, or set Error to the ParseFlags error text with exit number 1. Non-trivial = lists in which at least one flag declared in the table, or `--`, takes part (lists of bare values / undeclared flags only are trivial)",
 		Run:    run,
 		Replay: replay,
 		Assumptions: []string{
